@@ -10,11 +10,14 @@
      C17_count, C17_extents   one range per procedure declaration OF THE TREE, in tree order, from
                               the line of the first non-comment token of the declaration's token
                               range to the line of the end of its last token
-   [fold_pre] / [tree_pre] are evaluated by the judge on every document of the check (it must hold).
-   The full property for syntactically valid programs is [C17_full_statement]; it is NOT proved
-   here (see the remark there) and is validated by correspondence + oracle. *)
+     C17_valid                THE property for syntactically valid programs: for every abstract program
+                              of the grammar and every text that lexes to its token kinds (= every
+                              layout), the ranges are (line of `proc`, line of the closing brace) per
+                              procedure declaration in source order
+   [fold_pre] / [tree_pre] are evaluated by the judge on every document of the check (it must hold);
+   that the parser's trees satisfy [tree_pre] for ALL texts (also malformed ones) is not proved. *)
 From Coq Require Import String.
-From Spl Require Import Model.Fold Spec.LspText Spec.Grammar Proofs.FoldProofs.
+From Spl Require Import Model.Fold Spec.LspText Spec.Grammar Proofs.FoldProofs Proofs.FoldValid.
 Local Open Scope string_scope.
 Local Open Scope list_scope.
 Local Open Scope N_scope.
@@ -78,30 +81,49 @@ Example C17_count_extents_ex :
   end.
 Proof. vm_compute. repeat split; reflexivity. Qed.
 
-(* ---- the full property for syntactically valid programs (NOT proved) ----
-   For every abstract program p of the grammar (Spec/Grammar.v: comment slots in front of every
-   token, [prog_ok] = dangling-else discipline) and every text t that lexes to p's token kinds - i.e.
-   every layout of p - the folding ranges are, per procedure declaration in source order, the line
-   of its `proc` keyword (the token after the doc comments c1) and the line of its closing brace.
-   Proving it needs, on top of C04's round trip (parse = expected p), that table construction and
-   semantic analysis leave the declarations' ranges and offsets alone. *)
-Fixpoint proc_spans (o : nat) (l : list adecl) : list (nat * nat) :=
-  match l with
-  | [] => []
-  | d :: r =>
-      match d with
-      | DProc c1 _ _ _ _ _ _ _ _ _ => [((o + length c1)%nat, (o + length (fl_decl d) - 1)%nat)]
-      | DType _ _ _ _ _ _ => []
-      end ++ proc_spans (o + length (fl_decl d)) r
-  end.
-
+(* 5. THE property for syntactically valid programs in any layout.
+   p ranges over the abstract programs of the grammar (Spec/Grammar.v: a comment slot in front of
+   every token; [prog_ok] = the dangling-else discipline), t over ALL texts that lex to p's token
+   kinds - every layout of p: white space, line breaks, CR/LF conventions, comment texts and literal
+   spellings are free.  [proc_spans 0 (a_decls p)] lists, per procedure declaration in source
+   order, (index of its `proc` keyword = first token after the doc comments c1, index of its closing
+   brace); [extent_rel] says the answer is (line of the start of the first, line of the end of the
+   second).  The proof (Proofs/FoldValid.v) composes C04's round trip with the facts that table
+   construction and semantic analysis leave ranges and offsets alone. *)
 Definition C17_full_statement : Prop :=
   forall (p : aprog) (t : text) (toks : list token) (d : doc),
     prog_ok p = true -> lex t = Some toks -> map tk toks = flatten p ++ [Eof] ->
     new_doc_res t = ODone d ->
-    exists rs, fold d = ROk rs /\
-      Forall2 (fun (span : nat * nat) (se : N * N) =>
-                 exists first last, nth_error toks (fst span) = Some first /\ nth_error toks (snd span) = Some last /\
-                                    tk first = KProc /\ tk last = RCurly /\
-                                    se = (line_of t (ts first), line_of t (te last)))
-              (proc_spans 0 (a_decls p)) rs.
+    exists rs, fold d = ROk rs /\ Forall2 (extent_rel t toks) (proc_spans 0 (a_decls p)) rs.
+
+Theorem C17_valid : C17_full_statement.
+Proof. exact fold_valid. Qed.
+Print Assumptions C17_valid.
+
+(* what [extent_rel] says, spelled out *)
+Example C17_extent_rel_unfold : forall t toks span se,
+  extent_rel t toks span se <->
+  exists first last, nth_error toks (fst span) = Some first /\ nth_error toks (snd span) = Some last /\
+                     tk first = KProc /\ tk last = RCurly /\
+                     se = (line_of t (ts first), line_of t (te last)).
+Proof. intros. reflexivity. Qed.
+
+(* non-vacuity: "// d" / "proc a() {" / "}" / "type t = int;" / "proc main() {" / "" / "}" *)
+Definition c17_prog : aprog :=
+  {| a_decls := [ DProc [str " d"] [] (str "a") [] None [] [] [] SNil [];
+                  DType [] [] (str "t") [] (TName [] (str "int")) [];
+                  DProc [] [] (str "main") [] None [] [] [] SNil [] ];
+     a_ceof := [] |}.
+Definition c17_prog_text : text :=
+  str "// d" ++ [10] ++ str "proc a() {" ++ [10] ++ str "}" ++ [10] ++ str "type t = int;" ++ [10]
+  ++ str "proc main() {" ++ [10; 10] ++ str "}".
+
+Example C17_valid_ex :
+  prog_ok c17_prog = true
+  /\ option_map (map tk) (lex c17_prog_text) = Some (flatten c17_prog ++ [Eof])
+  /\ proc_spans 0 (a_decls c17_prog) = [(1, 6); (12, 17)]%nat
+  /\ match new_doc_res c17_prog_text with
+     | ODone d => fold d = ROk [(1, 2); (4, 6)]
+     | _ => False
+     end.
+Proof. vm_compute. repeat split; reflexivity. Qed.
